@@ -3,6 +3,8 @@ package props
 import (
 	"fmt"
 	"go/token"
+	"go/types"
+	"sort"
 	"strings"
 
 	"golang.org/x/tools/go/ssa"
@@ -250,4 +252,231 @@ func (c *Ctx) waitAcceptsRequests() {
 		}
 	}
 	c.R.Count("request types registered by Wait", n)
+}
+
+const ruleT18 = "T18-lookup-from-the-source"
+
+// lookupsConsultTheTree: T18. The answer to "who is subscribed to this topic" / "which messages are retained for this
+// filter" comes from the tree: every successful return of a lookup entry (MemTopics.Subscribers / Retained, the
+// Manager's methods of the same names) has passed the walk (smatch / rmatch, or the provider's method). A lookup that
+// can answer from other state (a cache of earlier answers, a counter, an index of nodes) is accepted only if every
+// function that changes the tree replaces that state by a fresh value afterwards, on every path from the change to its
+// return - a selective or earlier invalidation has to re-implement the matching relation (which filter selects which
+// cached topic) or leaves a window, and is not followed.
+func (c *Ctx) lookupsConsultTheTree() {
+	c.R.Rule(ruleT18, "every successful return of a subscriber / retained lookup has passed the tree walk (or the provider's lookup); state that lets a lookup answer without the walk is replaced by a fresh value after every change of the tree, in every function that changes it.")
+	type entry struct {
+		typ, name string
+		walk      func(call ssa.CallInstruction) bool
+		mutates   func(call ssa.CallInstruction) bool
+	}
+	static := func(recv string, names ...string) func(ssa.CallInstruction) bool {
+		return func(call ssa.CallInstruction) bool {
+			f := call.Common().StaticCallee()
+			if f == nil || f.Pkg == nil || f.Pkg.Pkg.Path() != pkgTopics || recvNamed(f) != recv {
+				return false
+			}
+			for _, n := range names {
+				if f.Name() == n {
+					return true
+				}
+			}
+			return false
+		}
+	}
+	provider := func(names ...string) func(ssa.CallInstruction) bool {
+		return func(call ssa.CallInstruction) bool {
+			cc := call.Common()
+			if !cc.IsInvoke() || namedName(cc.Value.Type()) != "Provider" {
+				return false
+			}
+			for _, n := range names {
+				if cc.Method.Name() == n {
+					return true
+				}
+			}
+			return false
+		}
+	}
+	entries := []entry{
+		{"MemTopics", "Subscribers", static("snode", "smatch"), static("snode", "sinsert", "sremove")},
+		{"MemTopics", "Retained", static("rnode", "rmatch"), static("rnode", "rinsert", "rremove")},
+		{"Manager", "Subscribers", provider("Subscribers"), provider("Subscribe", "Unsubscribe")},
+		{"Manager", "Retained", provider("Retained"), provider("Retain")},
+	}
+	n := 0
+	for _, e := range entries {
+		fn := c.P.Func("topics", e.typ, e.name)
+		if fn == nil {
+			c.R.Unresolved("topics." + e.typ + "." + e.name)
+			continue
+		}
+		key := e.typ + "." + e.name + ":answers-from-the-tree"
+		g := paths.New(c.P, fn, 2)
+		g.Expand = func(callee *ssa.Function, site ssa.CallInstruction) bool {
+			return callee != nil && callee.Blocks != nil && callee.Pkg != nil && callee.Pkg.Pkg.Path() == pkgTopics && !e.walk(site) && recvNamed(callee) == e.typ
+		}
+		walkN := nodeM(func(call ssa.CallInstruction) bool { return e.walk(call) })
+		if len(nodesMatching(g, walkN)) == 0 {
+			c.R.Bad(ruleT18, key, c.P.Pos(fn.Pos()), e.typ+"."+e.name+" never walks the tree (nor asks the provider)")
+			continue
+		}
+		n++
+		p := mustPass(g, []paths.Node{g.Entry()}, walkN, Assume{"err:*": false, "call:message.ValidQos": true})
+		if p == nil {
+			c.R.Ok(ruleT18, key, c.P.Pos(fn.Pos()), "every successful return has passed the walk")
+			continue
+		}
+		// the state the bypass reads: fields of the receiver loaded on the path
+		memo := map[string]bool{}
+		for _, nd := range p {
+			var addr ssa.Value
+			switch x := nd.Instr.(type) {
+			case *ssa.UnOp:
+				if x.Op == token.MUL {
+					addr = x.X
+				}
+			case *ssa.Call:
+				// sync.Map / atomic loads on a field of the receiver
+				if len(x.Common().Args) > 0 {
+					addr = x.Common().Args[0]
+				}
+			}
+			if addr == nil {
+				continue
+			}
+			fp := framePath(nd.F, addr)
+			if fp.Root != ssa.Value(fn.Params[0]) || len(fp.Fields) == 0 {
+				continue
+			}
+			f0 := fp.Fields[0]
+			if f0 == "smu" || f0 == "rmu" || f0 == "mu" || f0 == "sroot" || f0 == "rroot" || f0 == "p" {
+				continue
+			}
+			// locks are not state an answer is taken from
+			if pt, ok := addr.Type().Underlying().(*types.Pointer); ok {
+				if nt, ok := pt.Elem().(*types.Named); ok && nt.Obj().Pkg() != nil && nt.Obj().Pkg().Path() == "sync" && nt.Obj().Name() != "Map" {
+					continue
+				}
+			}
+			memo[f0] = true
+		}
+		var memos []string
+		for f := range memo {
+			memos = append(memos, f)
+		}
+		sort.Strings(memos)
+		// every updater resets every memo field after each change
+		var lacking []string
+		for _, u := range c.P.Funcs {
+			if u.Pkg == nil || u.Pkg.Pkg.Path() != pkgTopics || recvNamed(u) != e.typ || u.Parent() != nil {
+				continue
+			}
+			for _, call := range ir.Calls(u) {
+				if !e.mutates(call) {
+					continue
+				}
+				for _, f := range memos {
+					if !c.resetAfter(u, call, f) {
+						lacking = append(lacking, fmt.Sprintf("%s does not replace %s after %s", u.Name(), f, c.P.InstrPos(call)))
+					}
+				}
+			}
+		}
+		sort.Strings(lacking)
+		if len(memos) > 0 && len(lacking) == 0 {
+			c.R.Ok(ruleT18, key, c.P.Pos(fn.Pos()), "a lookup may answer from "+joinStr(memos, ", ")+", which every change of the tree replaces by a fresh value")
+			continue
+		}
+		why := "no state of the store is involved"
+		if len(memos) > 0 {
+			why = "from " + joinStr(memos, ", ") + "; " + joinStr(lacking, "; ")
+		}
+		c.R.Bad(ruleT18, key, c.P.Pos(fn.Pos()), e.typ+"."+e.name+" can return successfully without having walked the tree ("+why+"): the answer is what an earlier state of the tree gave - a subscription made since (e.g. \"sport/#\" for the cached topic \"sport\") is not served, a removed one still is, a cleared retained message comes back or a stored one is not found", c.witness(g, p)...)
+	}
+	c.R.Count("lookup entries of the topic store and its manager", n)
+	c.R.Floor("lookup entries of the topic store and its manager (Subscribers, Retained x2)", n, 4)
+}
+
+// resetAfter: on every path from the call to a return of u the field f of u's receiver is stored a fresh value
+// (make / composite literal / nil / a constructor call), in u itself or in a deferred closure of u.
+func (c *Ctx) resetAfter(u *ssa.Function, call ssa.CallInstruction, f string) bool {
+	fresh := func(v ssa.Value) bool {
+		switch x := v.(type) {
+		case *ssa.MakeMap, *ssa.MakeSlice, *ssa.Alloc:
+			return true
+		case *ssa.Const:
+			return x.IsNil()
+		case *ssa.Call:
+			return x.Common().StaticCallee() != nil && strings.HasPrefix(x.Common().StaticCallee().Name(), "new")
+		}
+		return false
+	}
+	var stores []ssa.Instruction
+	for _, b := range u.Blocks {
+		for _, in := range b.Instrs {
+			st, ok := in.(*ssa.Store)
+			if !ok {
+				continue
+			}
+			sp := ir.PathOf(st.Addr)
+			if sp.Root == ssa.Value(u.Params[0]) && len(sp.Fields) == 1 && sp.Fields[0] == f && fresh(st.Val) {
+				stores = append(stores, st)
+			}
+		}
+	}
+	// or a call of a method of the same receiver that stores the fresh value on all its paths (resetCache())
+	for _, hc := range ir.Calls(u) {
+		h := hc.Common().StaticCallee()
+		if h == nil || h.Blocks == nil || h == u || len(hc.Common().Args) == 0 || ir.SeeThrough(hc.Common().Args[0]) != ssa.Value(u.Params[0]) || len(h.Params) == 0 {
+			continue
+		}
+		if _, isGo := hc.(*ssa.Go); isGo {
+			continue
+		}
+		for _, b := range h.Blocks {
+			for _, in := range b.Instrs {
+				st, ok := in.(*ssa.Store)
+				if !ok {
+					continue
+				}
+				sp := ir.PathOf(st.Addr)
+				if sp.Root != ssa.Value(h.Params[0]) || len(sp.Fields) != 1 || sp.Fields[0] != f || !fresh(st.Val) {
+					continue
+				}
+				all := true
+				for _, ret := range ir.Returns(h) {
+					if !(b == ret.Block() || b.Dominates(ret.Block())) {
+						all = false
+					}
+				}
+				if all {
+					stores = append(stores, hc)
+				}
+			}
+		}
+	}
+	if len(stores) == 0 {
+		return false
+	}
+	// a return reachable from the call without passing any of the stores
+	stop := map[*ssa.BasicBlock]bool{}
+	for _, st := range stores {
+		if st.Block() == call.Block() && ir.InstrIndex(st) > ir.InstrIndex(call) {
+			return true
+		}
+		stop[st.Block()] = true
+	}
+	seen := ir.ReachableBlocks(call.Block(), stop)
+	for b := range seen {
+		if len(b.Instrs) > 0 {
+			if _, isRet := b.Instrs[len(b.Instrs)-1].(*ssa.Return); isRet {
+				return false
+			}
+		}
+	}
+	if _, isRet := call.Block().Instrs[len(call.Block().Instrs)-1].(*ssa.Return); isRet {
+		return false
+	}
+	return true
 }
